@@ -58,10 +58,12 @@ def inner : Nat → StreamSt → List Bytes → Inner
     | some (typ, r1) =>
       match decTL r1 with
       | none => .cont s fr                    -- incomplete length
-      | some (len, _) =>
+      | some (len, r2) =>
         if len > bufCap then .fail fr         -- repaired F-04b: can never fit, before `int(len)`
         else
-          let tlvSize := tlLen typ + tlLen len + len
+          -- `rdr.Pos() + int(len)` (repaired F-11b: was `typ.EncodingLength() + len.EncodingLength() + int(len)`,
+          -- which mis-sizes a block whose T or L is not in the shortest form)
+          let tlvSize := (s.data.length - r2.length) + len
           if s.data.length ≥ tlvSize then
             -- onFrame(recvBuf[tlvOff : tlvOff+tlvSize])
             if s.tlvOff + tlvSize ≤ bufCap then
